@@ -31,8 +31,13 @@ func kindName(t reflect.Type) string {
 	case reflect.Ptr:
 		return "ptr"
 	case reflect.Map:
-		if t.Elem().Kind() == reflect.Interface {
+		switch t.Elem().Kind() {
+		case reflect.Interface:
 			return "msa"
+		case reflect.Struct:
+			return "map-of-struct"
+		case reflect.Ptr:
+			return "map-of-ptr"
 		}
 		return "mss"
 	default:
@@ -243,7 +248,27 @@ func mset(root reflect.Value, path []string, val reflect.Value) int {
 				m := cur
 				return assign(m, m.Type().Elem(), func(v reflect.Value) { m.SetMapIndex(key, v) })
 			}
-			if cur.Type().Elem().Kind() != reflect.Interface {
+			switch cur.Type().Elem().Kind() {
+			case reflect.Struct:
+				// a struct value inside a map is not addressable: copy the entry (or start from zero), store
+				// below the copy, write the copy back
+				tmp := reflect.New(cur.Type().Elem()).Elem()
+				if e := cur.MapIndex(key); e.IsValid() {
+					tmp.Set(e)
+				}
+				st := mset(tmp, path[i+1:], val)
+				cur.SetMapIndex(key, tmp)
+				return st
+			case reflect.Ptr:
+				e := cur.MapIndex(key)
+				if !e.IsValid() || e.IsNil() {
+					e = reflect.New(cur.Type().Elem().Elem())
+					cur.SetMapIndex(key, e)
+				}
+				cur = e
+				continue
+			case reflect.Interface:
+			default:
 				return sMismatch
 			}
 			e := cur.MapIndex(key)
@@ -263,6 +288,39 @@ func mset(root reflect.Value, path []string, val reflect.Value) int {
 		}
 	}
 	return sOK
+}
+
+// mapEntryClass: the first step of a path that enters a map whose values are structs or struct pointers.
+// kind is "struct" / "pointer" ("" if there is none), entry the path up to and including the map key,
+// below the number of steps after the entry.
+func mapEntryClass(root reflect.Type, path []string) (kind string, entry []string, below int) {
+	t := root
+	for i, seg := range path {
+		if t.Kind() == reflect.Ptr && t.Elem().Kind() == reflect.Struct {
+			t = t.Elem()
+		}
+		switch t.Kind() {
+		case reflect.Struct:
+			f, ok := t.FieldByName(seg)
+			if !ok {
+				return "", nil, 0
+			}
+			t = f.Type
+		case reflect.Map:
+			e := t.Elem()
+			if e.Kind() == reflect.Struct || (e.Kind() == reflect.Ptr && e.Elem().Kind() == reflect.Struct) {
+				kind = "struct"
+				if e.Kind() == reflect.Ptr {
+					kind = "pointer"
+				}
+				return kind, path[:i+1], len(path) - i - 1
+			}
+			t = e
+		default:
+			return "", nil, 0
+		}
+	}
+	return "", nil, 0
 }
 
 // peek reads the value at a target path of an observed / model successor input (ok=false: not there).
